@@ -245,7 +245,48 @@ def check_sum(ctx):
                 return
 
 
+@guarded
+def check_fitted(ctx):
+    """the fitted model of a Variogram (manual fit, so the parameters are exactly the given ones - Python ints included)
+    called on an array / a list equals the lag-by-lag calls; first lag exactly 0"""
+    rng = ctx.rng
+    name = str(rng.choice(SINGLE))
+    ints = bool(rng.random() < 0.5)
+    r = int(rng.integers(10, 60)) if ints else float(rng.uniform(10, 60))
+    c0 = int(rng.integers(1, 5)) if ints else float(rng.uniform(0.5, 5))
+    b = int(rng.choice([0, 1, 2])) if ints else float(rng.choice([0.0, 0.3, 1.1]))
+    extra = {}
+    if name in ('stable', 'matern'):
+        extra['fit_shape'] = float(rng.choice([0.5, 1.0, 1.5]))
+    coords = rng.uniform(0, 50, size=(16, 2))
+    vals = rng.normal(size=16)
+    case = dict(fitted=name, r=r, c0=c0, b=b, extra=extra)
+    try:
+        with quiet():
+            V = Variogram(coords, vals, model=name, fit_method='manual', use_nugget=True, n_lags=5,
+                          fit_range=r, fit_sill=c0, fit_nugget=b, **extra)
+            fm = V.fitted_model
+            hs = [0.0] + [float(x) for x in np.linspace(0, 2.0 * float(r), 9)[1:]]
+            one = [float(fm(h)) for h in hs]
+            arr = np.asarray(fm(np.array(hs)), dtype=float).tolist()
+            lst = np.asarray(fm(list(hs)), dtype=float).tolist()
+            tr = np.asarray(V.transform(np.array(hs)), dtype=float).tolist()
+    except (ValueError, AttributeError, RuntimeError, ZeroDivisionError) as e:
+        ctx.reject('fitted:' + type(e).__name__)
+        return
+    ctx.count('fitted_model_array:' + ('int' if ints else 'float'))
+    ctx.case(signature=('fitted', name, ints), stream='fitted-model')
+    top = max(1e-12, abs(float(b)) + float(c0))
+    for tag, got in (('array', arr), ('list', lst), ('transform', tr)):
+        if not all_close(got, one, rel=1e-12, abs_=1e-13 * top):
+            ctx.violation('array', 'fitted %s model (range %r, sill %r, nugget %r): %s call %r, lag by lag %r' % (
+                name, r, c0, b, tag, got, one), case)
+            return
+
+
 def run(ctx):
+    for k in range(ctx.n(12, 120)):
+        check_fitted(ctx)
     for k in range(ctx.n(25, 300)):
         for name in SINGLE:
             check_model(ctx, name)
